@@ -213,6 +213,8 @@ RAW = {
     "path_target_join/sparksql": ("sparksql", "INSERT OVERWRITE DIRECTORY 'hdfs://nn/zqp1' SELECT a.ca, b.cb FROM zqt1 AS a JOIN zqt2 AS b ON a.id = b.id"),
     "path_source/sparksql": ("sparksql", "INSERT INTO zqt1 SELECT ca, cb FROM parquet.`/data/zqp1`"),
     "copy_from_path/postgres": ("postgres", "COPY zqt1 FROM 's3://bucket/zqp1'"),
+    # textually the same derived table under two aliases (a self join of a derived table): one subquery node, two alias names
+    "same_subquery_two_aliases/ansi": ("ansi", "INSERT INTO zqt1 SELECT zqd1.ca, zqd2.cb FROM (SELECT ca, cb FROM zqt2) AS zqd1 JOIN (SELECT ca, cb FROM zqt2) AS zqd2 ON zqd1.ca = zqd2.ca"),
 }
 
 
@@ -253,9 +255,17 @@ ROLE_SCRIPTS = {
 }
 
 
+# (dialect, statements)
+DIALECT_ROLE_SCRIPTS = {
+    # a directory written with and read without a trailing slash: two distinct path nodes when the bodies coincide
+    "path_slash/sparksql": ("sparksql", ["INSERT OVERWRITE DIRECTORY 'hdfs://nn/zqp1/' SELECT ca FROM zqt1",
+                                         "INSERT INTO zqt2 SELECT cb FROM parquet.`hdfs://nn/zqp2`"]),
+}
+
+
 class RoleScriptOb(RawExportOb):
-    def __init__(self, name, stmts):
-        self.dialect, self.stmts, self.quotes = "ansi", list(stmts), {}
+    def __init__(self, name, stmts, dialect="ansi"):
+        self.dialect, self.stmts, self.quotes = dialect, list(stmts), {}
         self.sql = ";\n".join(stmts)
         self.key = "roles/" + name
         self.slots = list(dict.fromkeys(m.lower() for q in stmts for m in PLACEHOLDER.findall(q)))
@@ -276,4 +286,5 @@ def obligations(tier, seed):
     obs += [ChainExportOb(n, s) for n, s in SHAPES.items()]
     obs += [RawExportOb(n, d, q) for n, (d, q) in RAW.items()]
     obs += [RoleScriptOb(n, q) for n, q in ROLE_SCRIPTS.items()]
+    obs += [RoleScriptOb(n, q, d) for n, (d, q) in DIALECT_ROLE_SCRIPTS.items()]
     return obs
